@@ -25,7 +25,17 @@ pub struct Decl {
     sel: usize,
 }
 /// selector, (ids, classes, types)
-const SELS: [(&str, (u32, u32, u32)); 5] = [("p", (0, 0, 1)), (".c", (0, 1, 0)), ("#i", (1, 0, 0)), ("p.c", (0, 1, 1)), ("p:nth-child(1)", (0, 1, 1))];
+const SELS: [(&str, (u32, u32, u32)); 7] = [
+    ("p", (0, 0, 1)),
+    (".c", (0, 1, 0)),
+    ("#i", (1, 0, 0)),
+    ("p.c", (0, 1, 1)),
+    ("p:nth-child(1)", (0, 1, 1)),
+    // eleven class components: still below one id (tiers do not carry over)
+    (".c.c.c.c.c.c.c.c.c.c.c", (0, 11, 0)),
+    // eleven type components on a descendant chain: still below one class
+    ("html body div div div div div div div div p", (0, 0, 11)),
+];
 const COLS: [&str; 4] = ["#010101", "#020202", "#030303", "#040404"];
 
 /// Reference cascade rank: (importance/origin class, inline, specificity, source index).
@@ -114,7 +124,7 @@ fn check_decls(c: &Case, cx: &mut Cx) {
         cfg = cfg.with(Opt::UserCss(s));
     }
     let styles: String = sheets(&author).iter().map(|s| format!("<style>{s}</style>")).collect();
-    let html = format!("{styles}<p id=i class=c style=\"{inline}\">x</p>");
+    let html = format!("{styles}<div><div><div><div><div><div><div><div><p id=i class=c style=\"{inline}\">x</p></div></div></div></div></div></div></div></div>");
     let mut best = 0;
     for k in 1..c.decls.len() {
         if rank(&c.decls[k], k) >= rank(&c.decls[best], best) {
@@ -238,7 +248,7 @@ impl Scope for S {
     }
     fn info(&self) -> Info {
         Info {
-            rule: "all ordered tuples of 2..=3 (thorough: ..=4) declarations from {agent,user,author,inline} x {normal,!important} x 5 selector specificity classes applied to one element, for color and background-color, same-origin declarations in one sheet and split over two sheets; plus all sheets of <= 3 (thorough: 4) colour rules over 7 selectors on a three-deep ancestor chain; non-trivial = two declarations of different cascade rank apply".into(),
+            rule: "all ordered tuples of 2..=3 (thorough: ..=4) declarations from {agent,user,author,inline} x {normal,!important} x 7 selector specificity classes (incl. 11 classes vs one id, 11 types vs one class) applied to one element, for color and background-color, same-origin declarations in one sheet and split over two sheets; plus all sheets of <= 3 (thorough: 4) colour rules over 7 selectors on a three-deep ancestor chain; non-trivial = two declarations of different cascade rank apply".into(),
             bounds: json!({"declaration_kinds": self.decls.len(), "declaration_tuples": self.dec_off.last(), "chain_sheets": self.chain_off.last(), "selectors": SELS.iter().map(|s| s.0).collect::<Vec<_>>(), "chain_selectors": CSELS.iter().map(|s| s.0).collect::<Vec<_>>(), "tier": self.tier.name()}),
             assumptions: vec!["reference cascade: importance/origin class, then inline, then (ids, classes+pseudo-classes, types), then source order (last wins)".into()],
         }
